@@ -120,6 +120,29 @@ func runC16Docs(c *Ctx, newSrv func() *server.Server) {
 		}
 		return ms
 	}
+	// framing: JSON text may be surrounded by white space (RFC 8259: ws value ws); a well-formed review stays one
+	for _, lead := range []string{"", " ", "\n", "\t", "\r\n", "   \n\t "} {
+		for _, trail := range []string{"", "\n", " \r\n"} {
+			body := lead + `{"apiVersion":"admission.k8s.io/v1","kind":"AdmissionReview","request":` + goodReq + `}` + trail
+			resp, err := http.Post(ts.URL, "application/json", bytes.NewReader([]byte(body)))
+			c.Eval(1)
+			c.Tag("docs.framing")
+			status, uid := -1, ""
+			if err == nil {
+				raw, _ := io.ReadAll(resp.Body)
+				resp.Body.Close()
+				status = resp.StatusCode
+				var rv admissionv1.AdmissionReview
+				if json.Unmarshal(raw, &rv) == nil && rv.Response != nil {
+					uid = string(rv.Response.UID)
+				}
+			}
+			if status != 200 || uid != "doc-uid" {
+				c.Violate(Finding{Desc: fmt.Sprintf("a well-formed v1 review with white space around the JSON text (%q before, %q after) is answered with status %d, uid %q", lead, trail, status, uid),
+					Key: "wellformed-framed-rejected", Input: J{"leadingBytes": lead, "trailingBytes": trail, "body": body}})
+			}
+		}
+	}
 	var ops []J
 	type obs struct {
 		body   string
